@@ -850,7 +850,7 @@ class Sim:
             if not used:
                 device = device.copy(with_mesh=True)
             xi_ = dev_spec["layer"]["xi"]
-            device.translate(mv["dx"] * xi_, mv["dy"] * xi_, inplace=True)
+            device.translate(mv["dx"] * xi_, mv["dy"] * xi_, dz=mv.get("dz", 0.0) * xi_, inplace=True)
             h.probe("device_moved")
         if scn.get("device_restored"):
             # device life cycle: the meshed device was saved in an earlier session and the run uses the
